@@ -35,6 +35,40 @@ Theorem C17_offsets_gap_free :
     o = zsum (firstn i (item_sizes it items)).
 Proof. exact encode_offsets_gap_free. Qed.
 
+(* ---- #[type_to_idl(skip)] ------------------------------------------------------------------------------------ *)
+(* "this field and all remaining fields will be skipped in the IDL definition": for a struct of fixed-size fields
+   whose field k carries the attribute, the emitted description decodes the bytes of the WHOLE value (the
+   concatenation of the field bytes, valid bit patterns) into the fields in front of field k - the first k fields of
+   the embedded value - and leaves exactly the bytes of field k and the fields behind it unread *)
+Theorem C17_skip_struct_prefix :
+  forall fs k defs0 bs, forallb fix_ok fs = true ->
+    length bs = fsizes (map erase_fix fs) -> fvalids (map erase_fix fs) bs = true ->
+    idl_decodes (snd (skip_struct_to_idl fs k defs0)) (fst (skip_struct_to_idl fs k defs0)) bs
+      (IVStruct (firstn k (embed_fixes fs bs))) (skipn (fixes_size (firstn k fs)) bs).
+Proof. exact idl_skip_struct_prefix. Qed.
+
+(* the same for the variant of a #[repr(u8)] enum that the discriminant byte selects; a unit variant reads that byte *)
+Theorem C17_skip_enum_prefix :
+  forall vs defs0 d fs k bs, skip_variants_ok vs = true -> find_skip_variant d vs = Some (Some (fs, k)) ->
+    length bs = fsizes (map erase_fix fs) -> fvalids (map erase_fix fs) bs = true ->
+    idl_decodes (snd (skip_enum_to_idl vs defs0)) (fst (skip_enum_to_idl vs defs0)) (d :: bs)
+      (IVEnum d (Some (IVStruct (firstn k (embed_fixes fs bs))))) (skipn (fixes_size (firstn k fs)) bs).
+Proof. exact idl_skip_enum_prefix. Qed.
+
+Theorem C17_skip_enum_unit :
+  forall vs defs0 d rest, skip_variants_ok vs = true -> find_skip_variant d vs = Some None ->
+    idl_decodes (snd (skip_enum_to_idl vs defs0)) (fst (skip_enum_to_idl vs defs0)) (d :: rest) (IVEnum d None) rest.
+Proof. exact idl_skip_enum_unit. Qed.
+
+(* a description that leaves out ONLY the marked field is not faithful: the field behind the hole is read from the
+   bytes of the marked one *)
+Theorem C17_skip_hole_refuted :
+  exists fs k bs v r,
+    forallb fix_ok fs = true /\ length bs = fsizes (map erase_fix fs) /\ fvalids (map erase_fix fs) bs = true /\
+    idl_decode 10 (snd (hole_struct_to_idl fs k [])) (fst (hole_struct_to_idl fs k [])) bs = Some (IVStruct v, r) /\
+    nth_error v k <> nth_error (embed_fixes fs bs) (S k).
+Proof. exact idl_skip_hole_refuted. Qed.
+
 (* ---- instruction account lists ----------------------------------------------------------------------------- *)
 (* for every switch setting, every program, every instruction whose account set is covered (`ok`) when the
    definition table holds one definition per key: the IDL flattening equals the client metas - order, signer and
@@ -116,4 +150,13 @@ Example C17_nonvacuous_accounts :
     Some ([mkMeta 1 true true; mkMeta 5 false false; mkMeta 99 false false; mkMeta 2 true false; mkMeta 3 true false], []) /\
   flatten 10 99 (program_defs REPAIRED 99 [a]) (idl_of REPAIRED 99 a) [TK 1; TNone; TNone; TLen 2; TK 2; TK 3] =
     client_metas REPAIRED 99 a [TK 1; TNone; TNone; TLen 2; TK 2; TK 3].
+Proof. vm_compute. repeat split; reflexivity. Qed.
+
+(* struct { version: u8; owner: [u8; 2]; #[type_to_idl(skip)] scratch: u16; total: u32 } *)
+Example C17_nonvacuous_skip :
+  let fs := [XPrim P_U8; XArray 2 (XPrim P_U8); XPrim P_U16; XPrim P_U32] in
+  let bs := [7; 8; 9; 52; 18; 1; 2; 3; 4] in
+  forallb fix_ok fs = true /\ length bs = fsizes (map erase_fix fs) /\ fvalids (map erase_fix fs) bs = true /\
+  idl_decode 10 (snd (skip_struct_to_idl fs 2 [])) (fst (skip_struct_to_idl fs 2 [])) bs =
+    Some (IVStruct [IVBytes [7]; IVList [IVBytes [8]; IVBytes [9]]], [52; 18; 1; 2; 3; 4]).
 Proof. vm_compute. repeat split; reflexivity. Qed.
